@@ -232,9 +232,11 @@ fn run(case: &Case) -> Result<Outcome, Failure> {
         items.push(Node::Shm(reg));
     }
     if case.multi_packet {
-        // the kernel buffers hold a few hundred KiB: a 3-packet message never blocks the sender
+        // the kernel buffers hold a few hundred KiB: with small reported buffers a 3-packet message
+        // never blocks the sender; with the real size a message just beyond one packet does not
+        // either (the first fragment fits the channel's buffer, the rest the dedicated socket's)
         let (f1, f) = crate::props::c01::capacities();
-        let n = if f1 <= 16384 { f1 + 2 * f + 7 } else { 60_000 };
+        let n = if f1 <= 16384 { f1 + 2 * f + 7 } else { f1 + 1000 };
         items.insert(0, Node::Bytes(payload::stream(0xb16, n)));
         items.insert(1, Node::U32(0xe0d));
     }
